@@ -69,6 +69,39 @@ def fallback_lookup_total():
     return None if sites is None else not sites
 
 
+def run_check_order():
+    """In the `while self.active:` loop of Transport.run: does the `_expected_packet` test come before every use of a
+    dispatch table and before the pre-auth gate `_ensure_authed` (statement order of the loop body)?  None if the
+    loop cannot be found."""
+    import paramiko.transport as T
+
+    try:
+        tree = ast.parse(textwrap.dedent(inspect.getsource(T.Transport.run)))
+    except (OSError, SyntaxError):
+        return None
+    loop = None
+    for n in ast.walk(tree):
+        if isinstance(n, ast.While) and isinstance(n.test, ast.Attribute) and n.test.attr == "active":
+            loop = n
+            break
+    if loop is None:
+        return None
+    first_expected = first_dispatch = None
+    for i, st in enumerate(loop.body):
+        names = {x.attr for x in ast.walk(st) if isinstance(x, ast.Attribute)}
+        if first_expected is None and isinstance(st, ast.If) and any(
+                isinstance(x, ast.Attribute) and x.attr == "_expected_packet" for x in ast.walk(st.test)):
+            first_expected = i
+        if first_dispatch is None and names & {"_ensure_authed", "_handler_table", "_channel_handler_table"}:
+            # the expected-packet statement itself hands kex types to the engine only
+            if not (isinstance(st, ast.If) and any(isinstance(x, ast.Attribute) and x.attr == "_expected_packet"
+                                                   for x in ast.walk(st.test))):
+                first_dispatch = i
+    if first_expected is None or first_dispatch is None:
+        return None
+    return first_expected < first_dispatch
+
+
 def read_tables():
     """Key sets of every dispatch table, read from live objects of the tree under test."""
     import paramiko
@@ -120,7 +153,10 @@ def lean_tables(tables, consts, total):
         "/-- every `MSG_*` integer constant of paramiko/common.py -/\n"
         "def msgConsts : List (String × Nat) := [%s]\n\n"
         "def tables : Tables :=\n  { namesTotal := %s,\n    highestUserauth := %d,\n%s }\n\n"
-        "end PV.Generated.C12\n" % (cl, "true" if total else "false", tables["highestUserauth"], body)
+        "/-- Transport.run, loop body: the `_expected_packet` test precedes every table dispatch and `_ensure_authed` -/\n"
+        "def expectedCheckBeforeDispatch : Bool := %s\n\n"
+        "end PV.Generated.C12\n" % (cl, "true" if total else "false", tables["highestUserauth"], body,
+                                      "true" if run_check_order() else "false")
     )
 
 
@@ -133,6 +169,7 @@ def write_generated(ctx):
                            "detail": "cannot read the source of Transport.run"})
         total = False
     ctx.extra["unguarded_MSG_NAMES_subscripts"] = unguarded_name_lookups()
+    ctx.extra["run_expected_check_before_dispatch"] = run_check_order()
     ctx.write_generated("C12", lean_tables(tables, consts, total))
     return tables, consts, total
 
@@ -796,6 +833,44 @@ def clears_under_lock():
     return out
 
 
+def newkeys_keeps_auth_handler():
+    """AST of Transport._parse_newkeys: every assignment to `self.auth_handler` is inside an `if` whose test includes
+    `self.auth_handler is None` (a re-exchange must not replace the authenticated handler).  None if unreadable."""
+    import paramiko.transport as T
+
+    try:
+        tree = ast.parse(textwrap.dedent(inspect.getsource(T.Transport._parse_newkeys)))
+    except (OSError, SyntaxError):
+        return None
+    ok = True
+
+    def guarded_test(test):
+        for c in ast.walk(test):
+            if (isinstance(c, ast.Compare) and len(c.ops) == 1 and isinstance(c.ops[0], ast.Is)
+                    and isinstance(c.left, ast.Attribute) and c.left.attr == "auth_handler"
+                    and isinstance(c.comparators[0], ast.Constant) and c.comparators[0].value is None):
+                return True
+        return False
+
+    def walk(stmts, guarded):
+        nonlocal ok
+        for st in stmts:
+            if isinstance(st, ast.Assign) and any(isinstance(t, ast.Attribute) and t.attr == "auth_handler"
+                                                  for t in st.targets):
+                ok = ok and guarded
+            if isinstance(st, ast.If):
+                walk(st.body, guarded or guarded_test(st.test))
+                walk(st.orelse, guarded)
+            else:
+                for f in ("body", "orelse", "finalbody"):
+                    sub = getattr(st, f, None)
+                    if isinstance(sub, list) and sub and isinstance(sub[0], ast.stmt):
+                        walk(sub, guarded)
+
+    walk(tree.body[0].body, False)
+    return ok
+
+
 def overflow_test_facts():
     """From the AST of Packetizer.read_message: inside `if self.__need_rekey:` the test that raises "ignoring rekey
     requests" compares which counters with which limits?  Returns [(counter attribute, limit attribute)] (names
@@ -850,11 +925,14 @@ def lean_channel_table(sites, takes, handlers, gate):
         "/-- every `clear_to_send.clear()` in transport.py: (function, line, inside a clear_to_send_lock region) -/\n"
         "def clearSites : List (String × Nat × Bool) := [%s]\n\n"
         "def allClearsUnderLock : Bool := clearSites.all (·.2.2) && !clearSites.isEmpty\n\n"
+        "/-- Transport._parse_newkeys assigns `self.auth_handler` only under an `auth_handler is None` test -/\n"
+        "def newkeysKeepsAuthHandler : Bool := %s\n\n"
         "end PV.Generated.C11\n" % (rows, hrows, "true" if gate["rechecks_under_lock"] else "false",
                                       "true" if gate["clears_before_write"] else "false",
                                       ", ".join('("%s", "%s")' % p for p in (gate.get("overflow_tests") or [])),
                                       ", ".join('("%s", %d, %s)' % (f, l, "true" if u else "false")
-                                                for f, l, u in (gate.get("clear_sites") or [])))
+                                                for f, l, u in (gate.get("clear_sites") or [])),
+                                      "true" if gate.get("newkeys_keeps_auth_handler") else "false")
     )
 
 
@@ -866,6 +944,7 @@ def write_generated_c11(ctx):
     gate = send_gate_facts()
     gate["overflow_tests"] = overflow_test_facts()
     gate["clear_sites"] = clears_under_lock()
+    gate["newkeys_keeps_auth_handler"] = newkeys_keeps_auth_handler()
     ctx.extra["send_gate_facts"] = gate
     ctx.write_generated("C11", lean_channel_table(sites, takes, handlers, gate))
     return sites, takes, handlers
@@ -891,7 +970,7 @@ def parked_sender_vs_self_rekey(role):
             raise InfraError("accept timed out")
         sub_ch, peer_ch = (sch, ch) if role == "server" else (ch, sch)
         tap = Tap(sub)
-        sub.clear_to_send_timeout = 5.0
+        sub.clear_to_send_timeout = 3.0
         if not pair.barrier():
             raise InfraError("session not usable before the re-exchange")
         at_write, go, starter_at_lock = threading.Event(), threading.Event(), threading.Event()
@@ -956,7 +1035,7 @@ def parked_sender_vs_self_rekey(role):
                 and any(r[0] == 21 for r in tap.tx[mark:]))
 
         t0 = time.time()
-        while not (settled() and not threads["user"].is_alive()) and time.time() - t0 < 30:
+        while not (settled() and not threads["user"].is_alive()) and time.time() - t0 < 12:
             time.sleep(0.01)
         for t in (sub, peer):
             if not t.is_active():
